@@ -58,6 +58,21 @@ pub fn gen_id(rng: &mut Rng) -> String {
         // trim-/case-/padding-sensitive ids: trailing and leading blanks, tab, NBSP, NEL, lower/upper twins
         "AP  ", "CT\t", "E1 ", " X", "A\u{a0}", "B\u{85}", "app", "App", "AP", "CT", "E1", "A\n", "\r",
     ];
+    if rng.chance(1, 30) {
+        // a literal of the source under test that fits an id field
+        let d = crate::dict::dict();
+        let mut cands: Vec<String> = d.strings.iter().filter(|x| x.len() <= 4 && !x.contains('\0')).cloned().collect();
+        for r in &d.raw {
+            if let Ok(t) = std::str::from_utf8(r) {
+                if t.len() <= 4 && !t.contains('\0') {
+                    cands.push(t.to_string());
+                }
+            }
+        }
+        if !cands.is_empty() {
+            return rng.pick(&cands).clone();
+        }
+    }
     if rng.chance(1, 2) {
         rng.pick(&fixed).to_string()
     } else {
@@ -68,6 +83,16 @@ pub fn gen_id(rng: &mut Rng) -> String {
 
 pub fn gen_u(rng: &mut Rng, bits: u32) -> u128 {
     let max: u128 = if bits == 128 { u128::MAX } else { (1u128 << bits) - 1 };
+    if bits == 32 && rng.chance(1, 30) {
+        // the four bytes of a binary literal of the source under test, in either byte order
+        let d = crate::dict::dict();
+        let c: Vec<&Vec<u8>> = d.raw.iter().filter(|r| r.len() >= 4).collect();
+        if !c.is_empty() {
+            let r = *rng.pick(&c);
+            let a = [r[0], r[1], r[2], r[3]];
+            return if rng.bool() { u32::from_le_bytes(a) } else { u32::from_be_bytes(a) } as u128;
+        }
+    }
     match rng.below(6) {
         0 => 0,
         1 => 1,
@@ -336,6 +361,8 @@ pub struct MsgOpts {
     pub max_blob: usize,
     /// make the overall length hit exactly this value if possible (boundary totals)
     pub target_total: Option<usize>,
+    /// allow a message built around a source literal (these are often 20 KB long)
+    pub dict: bool,
 }
 impl Default for MsgOpts {
     fn default() -> Self {
@@ -345,6 +372,7 @@ impl Default for MsgOpts {
             max_args: 6,
             max_blob: 40,
             target_total: None,
+            dict: true,
         }
     }
 }
@@ -366,6 +394,12 @@ pub fn gen_control_payload_id(rng: &mut Rng) -> ControlType {
 
 /// a well-formed message (see coq/Spec/WellFormed.v for the same predicate on the model side)
 pub fn gen_message(rng: &mut Rng, o: &MsgOpts) -> Message {
+    // one message in 24 is built around a literal of the source under test (see dict.rs)
+    if o.dict && o.target_total.is_none() && rng.chance(1, 24) {
+        if let Some(m) = dict_message(rng, o, None) {
+            return m;
+        }
+    }
     let kind = o.kind.unwrap_or_else(|| match rng.below(8) {
         0..=3 => PKind::Verbose,
         4 => PKind::NonVerbose,
@@ -528,6 +562,87 @@ pub fn gen_message(rng: &mut Rng, o: &MsgOpts) -> Message {
         extended_header,
         payload,
     }
+}
+
+/// A well-formed non-verbose message whose first four serialised bytes (header type, counter, length) are the
+/// first bytes of a literal of the source under test; `which` selects the literal (None = random).
+pub fn dict_message(rng: &mut Rng, o: &MsgOpts, which: Option<usize>) -> Option<Message> {
+    let d = crate::dict::dict();
+    if d.bytes.is_empty() {
+        return None;
+    }
+    if !matches!(o.kind, None | Some(PKind::NonVerbose)) {
+        return None;
+    }
+    let e = match which {
+        Some(k) => &d.bytes[k % d.bytes.len()],
+        None if !d.raw.is_empty() && rng.bool() => &d.raw[rng.below(d.raw.len() as u64) as usize],
+        None => &d.bytes[rng.below(d.bytes.len() as u64) as usize],
+    };
+    let mut h = [0u8; 4];
+    for k in 0..4 {
+        h[k] = if k < e.len() { e[k] } else { rng.next() as u8 };
+    }
+    if e.len() < 3 {
+        h[2] = 0;
+    }
+    let htyp = h[0];
+    let has_ext = htyp & 1 != 0;
+    let endianness = if htyp & 2 != 0 { Endianness::Big } else { Endianness::Little };
+    let ecu_id = if htyp & 4 != 0 { Some(gen_id(rng)) } else { None };
+    let session_id = if htyp & 8 != 0 { Some(gen_u(rng, 32) as u32) } else { None };
+    let timestamp = if htyp & 0x10 != 0 { Some(gen_u(rng, 32) as u32) } else { None };
+    let hdr_len = 4 + ecu_id.is_some() as usize * 4 + session_id.is_some() as usize * 4 + timestamp.is_some() as usize * 4
+        + has_ext as usize * 10;
+    let len = ((h[2] as usize) << 8) | h[3] as usize;
+    if len < hdr_len + 4 {
+        return None;
+    }
+    let n = len - hdr_len - 4;
+    let body = if rng.bool() { vec![rng.next() as u8; n] } else { rng.bytes(n) };
+    let payload = PayloadContent::NonVerbose(gen_u(rng, 32) as u32, body);
+    let extended_header = if has_ext {
+        let c = *rng.pick(&[0u64, 0, 1, 2, 4]);
+        Some(ExtendedHeader {
+            verbose: false,
+            argument_count: rng.next() as u8,
+            message_type: gen_mtype_of(rng, c),
+            application_id: gen_id(rng),
+            context_id: gen_id(rng),
+        })
+    } else {
+        None
+    };
+    let with_storage = o.storage.unwrap_or_else(|| rng.bool());
+    let storage_header = if with_storage {
+        Some(StorageHeader {
+            timestamp: DltTimeStamp { seconds: gen_u(rng, 32) as u32, microseconds: gen_u(rng, 32) as u32 },
+            ecu_id: gen_id(rng),
+        })
+    } else {
+        None
+    };
+    Some(Message {
+        storage_header,
+        header: StandardHeader {
+            version: htyp >> 5,
+            endianness,
+            has_extended_header: has_ext,
+            message_counter: h[1],
+            ecu_id,
+            session_id,
+            timestamp,
+            payload_length: (len - hdr_len) as u16,
+        },
+        extended_header,
+        payload,
+    })
+}
+
+/// every literal of the dictionary once (deterministic part of the generators)
+pub fn dict_messages(rng: &mut Rng, o: &MsgOpts) -> Vec<Message> {
+    let n = crate::dict::dict().bytes.len();
+    (0..n).filter_map(|k| dict_message(rng, o, Some(k))).collect()
 }
 
 pub fn gen_suffix(rng: &mut Rng) -> Vec<u8> {
